@@ -246,6 +246,8 @@ def call_function(I, fn, args, kwargs):
     if top is not None and key in top.site_requires and I.depth == 1 and I.cur_frame is not None:
         I.prove_clauses(top.site_requires[key], I.cur_frame, f"{top.name}.at-call[{fn.__qualname__}]")
     c = I.reg.get_for_call(I, key, fn, args, kwargs)
+    if c is not None and top is not None and key in getattr(top, "inline_calls", ()):
+        c = None
     if c is not None:
         I.assumed_calls.add(c.name)
         return I.reg.apply_contract(I, c, fn, args, kwargs)
